@@ -1,5 +1,5 @@
 (* C04 — every destination receives exactly its configured share. *)
-From C4E Require Import Base Minter Distributor DistrCoins DistrProofs.
+From C4E Require Import Base Minter Distributor DistrCoins DistrProofs Drift.
 From C4EProps Require C03.
 Open Scope Z_scope.
 
@@ -38,6 +38,15 @@ Theorem C04_credit_goes_to_one_state :
   states_wf sts' /\ forall d, remsum d sts' = remsum d sts + dc_amt d share.
 Proof. exact add_share_to_account_spec. Qed.
 Print Assumptions C04_credit_goes_to_one_state.
+
+(* cumulative drift: over any number of distribution steps with any non-negative inflows, what a share's
+   destination has been credited is the exact fraction of the total inflow minus less than one 10^-18 unit
+   per step (in the same 18-digit scale) — never more than the exact fraction *)
+Theorem C04_cumulative_drift_is_below_one_unit_per_step :
+  forall share inflows, 0 <= share -> Forall (fun i => 0 <= i) inflows ->
+  0 <= zsum inflows * share - P * credited_sum share inflows < P * Z.of_nat (length inflows) \/ inflows = [].
+Proof. exact cumulative_drift. Qed.
+Print Assumptions C04_cumulative_drift_is_below_one_unit_per_step.
 
 (* finding K3: a named share whose destination is MAIN is skipped — the primary receives it *)
 Theorem C04_refuted_K3 :
